@@ -196,3 +196,27 @@ func init() {
 		})
 	}
 }
+
+func init() {
+	// AccAddress.String(): the bech32 text is a function of the address bytes (injectivity is not assumed)
+	reg("(github.com/cosmos/cosmos-sdk/types.AccAddress).String", func(fr *Frame, st *State, c *ssa.CallCommon, a []*Term) ([]*Term, bool) {
+		ex := fr.ex
+		if a[0].sort != Sort("Slice") {
+			return nil, false
+		}
+		return []*Term{ex.f.App("acc.bech32", SStr, ex.bytesToStr(st, a[0]))}, true
+	})
+}
+
+func init() {
+	// protocol/common.LogCodedError / LogCodedWarning: log, emit a metric and return utils.LavaFormatError/Warning's
+	// (non-nil) error; treated like the utils logging helpers
+	for _, n := range []string{"github.com/lavanet/lava/v5/protocol/common.LogCodedError", "github.com/lavanet/lava/v5/protocol/common.LogCodedWarning"} {
+		reg(n, func(fr *Frame, st *State, c *ssa.CallCommon, args []*Term) ([]*Term, bool) {
+			ex := fr.ex
+			r := ex.f.Fresh("err", SInt)
+			ex.assume(st, ex.f.Gt(r, ex.f.Int(0)))
+			return []*Term{r}, true
+		})
+	}
+}
